@@ -1,6 +1,982 @@
 package main
 
-// replayOnRealCode tries to confirm a counterexample on the real code. See replay_gen.go for the cases covered.
-func replayOnRealCode(w *World, fo *funcOutcome, key, agg string, a *aggStatus, path string) bool {
+// Replay of solver counterexamples on the real code.
+//
+// For a failed obligation whose solver answer is `sat`, the model of the function's inputs (parameters and the part
+// of the entry heap reachable from them) is turned into Go values, an in-package test that calls the real function
+// with them is injected with `go test -overlay` (nothing is written into /repo), and what the real code does is
+// compared with what the model says the code does:
+//   - post-condition obligations: the call returns normally and its observable results (scalars, nil-ness of
+//     pointers / interfaces / errors, lengths of slices) equal those of the model's active exit - the solver has
+//     established that the contract clause is false for exactly these inputs and results;
+//   - safety obligations (index, nil dereference, type assertion ...): the call panics.
+// Anything that cannot be rebuilt faithfully (closures, channels, non-empty maps, function values, unexported fields
+// of other packages, dynamic types the model invents) makes the replay give up: the violation is then reported with
+// no-failing-input-found. A replay never turns a passing obligation into a violation; it only confirms one.
+
+import (
+	"bufio"
+	"encoding/json"
+	"fmt"
+	"go/types"
+	"io"
+	"math"
+	"os"
+	"os/exec"
+	"path/filepath"
+	"sort"
+	"strconv"
+	"strings"
+	"time"
+
+	"golang.org/x/tools/go/ssa"
+)
+
+type replayInfo struct {
+	g      *Gen
+	entry  *State
+	exits  []Exit
+	panics []Exit
+	fn     *ssa.Function
+	params []Term
+}
+
+// ---- s-expressions ----
+
+type sx struct {
+	atom string
+	list []sx
+	str  bool
+}
+
+func (s sx) isAtom() bool { return s.list == nil }
+
+func parseSx(src string) (sx, error) {
+	p := &sxParser{s: src}
+	v, err := p.parse()
+	return v, err
+}
+
+type sxParser struct {
+	s string
+	i int
+}
+
+func (p *sxParser) ws() {
+	for p.i < len(p.s) && (p.s[p.i] == ' ' || p.s[p.i] == '\n' || p.s[p.i] == '\t' || p.s[p.i] == '\r') {
+		p.i++
+	}
+}
+
+func (p *sxParser) parse() (sx, error) {
+	p.ws()
+	if p.i >= len(p.s) {
+		return sx{}, fmt.Errorf("unexpected end")
+	}
+	switch p.s[p.i] {
+	case '(':
+		p.i++
+		out := sx{list: []sx{}}
+		for {
+			p.ws()
+			if p.i >= len(p.s) {
+				return sx{}, fmt.Errorf("unbalanced")
+			}
+			if p.s[p.i] == ')' {
+				p.i++
+				return out, nil
+			}
+			v, err := p.parse()
+			if err != nil {
+				return sx{}, err
+			}
+			out.list = append(out.list, v)
+		}
+	case '"':
+		j := p.i + 1
+		var b strings.Builder
+		for j < len(p.s) {
+			if p.s[j] == '"' {
+				if j+1 < len(p.s) && p.s[j+1] == '"' {
+					b.WriteByte('"')
+					j += 2
+					continue
+				}
+				break
+			}
+			b.WriteByte(p.s[j])
+			j++
+		}
+		p.i = j + 1
+		return sx{atom: b.String(), str: true}, nil
+	default:
+		j := p.i
+		for j < len(p.s) && !strings.ContainsRune(" \n\t\r()", rune(p.s[j])) {
+			j++
+		}
+		a := p.s[p.i:j]
+		p.i = j
+		return sx{atom: a}, nil
+	}
+}
+
+// ---- interactive solver session ----
+
+type smtSession struct {
+	cmd *exec.Cmd
+	in  io.WriteCloser
+	rd  *bufio.Reader
+}
+
+func startSession(script string, timeoutMs int) (*smtSession, string, error) {
+	cmd := exec.Command("z3-new", "-in", "-smt2", fmt.Sprintf("-t:%d", timeoutMs))
+	in, err := cmd.StdinPipe()
+	if err != nil {
+		return nil, "", err
+	}
+	out, err := cmd.StdoutPipe()
+	if err != nil {
+		return nil, "", err
+	}
+	cmd.Stderr = nil
+	if err := cmd.Start(); err != nil {
+		return nil, "", err
+	}
+	s := &smtSession{cmd: cmd, in: in, rd: bufio.NewReader(out)}
+	go func() {
+		time.Sleep(time.Duration(timeoutMs)*time.Millisecond*4 + 60*time.Second)
+		cmd.Process.Kill()
+	}()
+	io.WriteString(in, script)
+	io.WriteString(in, "\n(echo \"GVC-READY\")\n")
+	status := ""
+	for {
+		ln, err := s.rd.ReadString('\n')
+		if err != nil {
+			s.close()
+			return nil, "", fmt.Errorf("solver ended: %v", err)
+		}
+		t := strings.TrimSpace(ln)
+		if t == "sat" || t == "unsat" || t == "unknown" || t == "timeout" {
+			status = t
+		}
+		if strings.Contains(t, "GVC-READY") {
+			break
+		}
+	}
+	return s, status, nil
+}
+
+func (s *smtSession) close() {
+	s.in.Close()
+	s.cmd.Process.Kill()
+	s.cmd.Wait()
+}
+
+// value asks for the model value of a term.
+func (s *smtSession) value(term string) (sx, error) {
+	io.WriteString(s.in, "(get-value ("+term+"))\n")
+	var b strings.Builder
+	depth, started, inStr := 0, false, false
+	for {
+		c, err := s.rd.ReadByte()
+		if err != nil {
+			return sx{}, err
+		}
+		b.WriteByte(c)
+		if inStr {
+			if c == '"' {
+				inStr = false
+			}
+			continue
+		}
+		switch c {
+		case '"':
+			inStr = true
+		case '(':
+			depth++
+			started = true
+		case ')':
+			depth--
+		}
+		if started && depth == 0 {
+			break
+		}
+	}
+	v, err := parseSx(b.String())
+	if err != nil {
+		return sx{}, err
+	}
+	if len(v.list) >= 1 && v.list[0].isAtom() && v.list[0].atom == "error" {
+		return sx{}, fmt.Errorf("solver: %s", b.String())
+	}
+	if len(v.list) != 1 || len(v.list[0].list) != 2 {
+		return sx{}, fmt.Errorf("unexpected get-value answer %s", b.String())
+	}
+	return v.list[0].list[1], nil
+}
+
+// ---- model values -> Go ----
+
+type rbuilder struct {
+	s       *smtSession
+	g       *Gen
+	entry   *State
+	script  string
+	pkg     *types.Package
+	stmts   []string
+	nvar    int
+	ptrs    map[string]string
+	imports map[string]string
+	why     string
+	budget  int
+	shorter []string // constraints to add for another attempt
+}
+
+func (b *rbuilder) fail(f string, a ...interface{}) string {
+	if b.why == "" {
+		b.why = fmt.Sprintf(f, a...)
+	}
+	return "nil"
+}
+
+func (b *rbuilder) qual(p *types.Package) string {
+	if p == b.pkg {
+		return ""
+	}
+	if a, ok := b.imports[p.Path()]; ok {
+		return a
+	}
+	a := fmt.Sprintf("rp%d", len(b.imports))
+	b.imports[p.Path()] = a
+	return a
+}
+
+func (b *rbuilder) typeStr(t types.Type) string { return types.TypeString(t, b.qual) }
+
+func sxInt(v sx) (string, bool) {
+	if v.isAtom() {
+		if _, err := strconv.ParseInt(v.atom, 10, 64); err == nil {
+			return v.atom, true
+		}
+		if _, err := strconv.ParseUint(v.atom, 10, 64); err == nil {
+			return v.atom, true
+		}
+		return "", false
+	}
+	if len(v.list) == 2 && v.list[0].atom == "-" {
+		if n, ok := sxInt(v.list[1]); ok {
+			return "-" + n, true
+		}
+	}
+	return "", false
+}
+
+func sxF64(v sx) (uint64, bool) {
+	if len(v.list) == 4 && v.list[0].atom == "fp" {
+		bits := ""
+		for _, p := range v.list[1:] {
+			a := p.atom
+			switch {
+			case strings.HasPrefix(a, "#b"):
+				bits += a[2:]
+			case strings.HasPrefix(a, "#x"):
+				for _, h := range a[2:] {
+					n, _ := strconv.ParseUint(string(h), 16, 8)
+					bits += fmt.Sprintf("%04b", n)
+				}
+			default:
+				return 0, false
+			}
+		}
+		if len(bits) != 64 {
+			return 0, false
+		}
+		n, err := strconv.ParseUint(bits, 2, 64)
+		return n, err == nil
+	}
+	if len(v.list) == 4 && v.list[0].atom == "_" {
+		switch v.list[1].atom {
+		case "+zero":
+			return 0, true
+		case "-zero":
+			return 1 << 63, true
+		case "+oo":
+			return math.Float64bits(math.Inf(1)), true
+		case "-oo":
+			return math.Float64bits(math.Inf(-1)), true
+		case "NaN":
+			return math.Float64bits(math.NaN()), true
+		}
+	}
+	return 0, false
+}
+
+// smtStringBytes decodes an SMT-LIB string literal whose characters stand for bytes.
+func smtStringBytes(s string) ([]byte, bool) {
+	var out []byte
+	for i := 0; i < len(s); {
+		if strings.HasPrefix(s[i:], "\\u{") {
+			j := strings.IndexByte(s[i:], '}')
+			if j < 0 {
+				return nil, false
+			}
+			n, err := strconv.ParseUint(s[i+3:i+j], 16, 32)
+			if err != nil || n > 255 {
+				return nil, false
+			}
+			out = append(out, byte(n))
+			i += j + 1
+			continue
+		}
+		if strings.HasPrefix(s[i:], "\\x") && i+4 <= len(s) {
+			n, err := strconv.ParseUint(s[i+2:i+4], 16, 8)
+			if err == nil {
+				out = append(out, byte(n))
+				i += 4
+				continue
+			}
+		}
+		if s[i] >= 0x80 {
+			return nil, false
+		}
+		out = append(out, s[i])
+		i++
+	}
+	return out, true
+}
+
+func goBytesLit(bs []byte) string {
+	var b strings.Builder
+	b.WriteByte('"')
+	for _, c := range bs {
+		switch {
+		case c == '"' || c == '\\':
+			b.WriteByte('\\')
+			b.WriteByte(c)
+		case c >= 0x20 && c < 0x7f:
+			b.WriteByte(c)
+		default:
+			fmt.Fprintf(&b, "\\x%02x", c)
+		}
+	}
+	b.WriteByte('"')
+	return b.String()
+}
+
+func (b *rbuilder) declared(name string) bool {
+	return strings.Contains(b.script, "(declare-fun "+name+" ") || strings.Contains(b.script, "(declare-const "+name+" ")
+}
+
+func (b *rbuilder) zeroOf(t types.Type) string {
+	switch u := types.Unalias(t).Underlying().(type) {
+	case *types.Basic:
+		switch {
+		case u.Info()&types.IsBoolean != 0:
+			return b.typeStr(t) + "(false)"
+		case u.Info()&types.IsString != 0:
+			return b.typeStr(t) + `("")`
+		case u.Kind() == types.UnsafePointer:
+			return "nil"
+		default:
+			return b.typeStr(t) + "(0)"
+		}
+	case *types.Struct:
+		return b.typeStr(t) + "{}"
+	}
+	return "nil"
+}
+
+// val builds a Go expression for the model value of the SMT term `term` of Go type t. Terms stay symbolic (in terms of
+// the parameters and the entry heap) so that extra constraints (shorter slices) can be added and the model recomputed.
+func (b *rbuilder) val(t types.Type, term string, depth int) string {
+	if b.why != "" {
+		return "nil"
+	}
+	v, err := b.s.value(term)
+	if err != nil {
+		return b.fail("model query failed: %v", err)
+	}
+	b.budget--
+	if depth > 8 || b.budget < 0 {
+		return b.fail("model too large to rebuild")
+	}
+	t = types.Unalias(t)
+	if n, ok := t.(*types.Named); ok && n.Obj().Pkg() != nil && n.Obj().Pkg() != b.pkg && !n.Obj().Exported() {
+		return b.fail("unexported type %s of another package", n)
+	}
+	switch u := t.Underlying().(type) {
+	case *types.Basic:
+		switch {
+		case u.Info()&types.IsBoolean != 0:
+			if v.atom == "true" || v.atom == "false" {
+				return b.typeStr(t) + "(" + v.atom + ")"
+			}
+		case u.Info()&types.IsInteger != 0:
+			if n, ok := sxInt(v); ok {
+				lo, hi, _ := intRange(t)
+				_ = lo
+				_ = hi
+				return b.typeStr(t) + "(" + n + ")"
+			}
+		case u.Kind() == types.Float64:
+			if bits, ok := sxF64(v); ok {
+				b.imports["math"] = "math"
+				return fmt.Sprintf("%s(math.Float64frombits(0x%016x))", b.typeStr(t), bits)
+			}
+		case u.Info()&types.IsString != 0:
+			if v.str {
+				if bs, ok := smtStringBytes(v.atom); ok {
+					return b.typeStr(t) + "(" + goBytesLit(bs) + ")"
+				}
+				return b.fail("string value with code points above 255")
+			}
+		}
+		return b.fail("cannot read %s value from the model", t)
+	case *types.Struct:
+		// (mk$T f1 ... fn) or the atom mk$T
+		var fs []sx
+		if !v.isAtom() {
+			fs = v.list[1:]
+		}
+		if len(fs) != u.NumFields() {
+			return b.fail("struct value of %s has unexpected shape: %s", t, sxString(v))
+		}
+		var parts []string
+		for k := 0; k < u.NumFields(); k++ {
+			f := u.Field(k)
+			if !f.Exported() && f.Pkg() != b.pkg {
+				return b.fail("unexported field %s.%s of another package", t, f.Name())
+			}
+			parts = append(parts, f.Name()+": "+b.val(f.Type(), fmt.Sprintf("(%s %s)", fieldAcc(t, k), term), depth+1))
+		}
+		return b.typeStr(t) + "{" + strings.Join(parts, ", ") + "}"
+	case *types.Pointer:
+		ref, ok := sxInt(v)
+		if !ok {
+			return b.fail("pointer value not an integer")
+		}
+		if ref == "0" {
+			return "(" + b.typeStr(t) + ")(nil)"
+		}
+		key := b.typeStr(t) + "|" + ref
+		if name, ok := b.ptrs[key]; ok {
+			return name
+		}
+		b.nvar++
+		name := fmt.Sprintf("p%d", b.nvar)
+		b.ptrs[key] = name
+		el := u.Elem()
+		b.stmts = append(b.stmts, fmt.Sprintf("%s := new(%s)", name, b.typeStr(el)))
+		if st, isSt := types.Unalias(el).Underlying().(*types.Struct); isSt {
+			for k := 0; k < st.NumFields(); k++ {
+				f := st.Field(k)
+				comp, _, _ := b.g.fieldComp(el, k)
+				if !b.declared(comp + "@0") {
+					continue // the function never looks at this field: its zero value will do
+				}
+				if !f.Exported() && f.Pkg() != b.pkg {
+					return b.fail("unexported field %s.%s of another package", el, f.Name())
+				}
+				b.stmts = append(b.stmts, fmt.Sprintf("%s.%s = %s", name, f.Name(), b.val(f.Type(), fmt.Sprintf("(select %s@0 %s)", comp, term), depth+1)))
+			}
+			return name
+		}
+		comp, _ := b.g.cellComp(el)
+		if b.declared(comp + "@0") {
+			b.stmts = append(b.stmts, fmt.Sprintf("*%s = %s", name, b.val(el, fmt.Sprintf("(select %s@0 %s)", comp, term), depth+1)))
+		}
+		return name
+	case *types.Slice:
+		if len(v.list) != 5 {
+			return b.fail("slice value has unexpected shape")
+		}
+		ref, _ := sxInt(v.list[1])
+		off, _ := sxInt(v.list[2])
+		ln, ok := sxInt(v.list[3])
+		if !ok {
+			return b.fail("slice length not an integer")
+		}
+		n, _ := strconv.Atoi(ln)
+		if ref == "0" {
+			return "(" + b.typeStr(t) + ")(nil)"
+		}
+		if ec, _ := b.g.elemComp(u.Elem()); n >= 0 && n <= 1000000 && !b.declared(ec+"@0") {
+			// the function never reads an element of this element type: only the length matters
+			return fmt.Sprintf("make(%s, %d)", b.typeStr(t), n)
+		}
+		if n < 0 || n > 12 {
+			// ask for a model with a shorter slice and start again
+			b.shorter = append(b.shorter, fmt.Sprintf("(assert (<= (s_len %s) 4))", term))
+			return b.fail("slice of length %d", n)
+		}
+		_ = off
+		comp, _ := b.g.elemComp(u.Elem())
+		var parts []string
+		for k := 0; k < n; k++ {
+			if !b.declared(comp + "@0") {
+				parts = append(parts, b.zeroOf(u.Elem()))
+				continue
+			}
+			parts = append(parts, b.val(u.Elem(), fmt.Sprintf("(select (select %s@0 (s_ref %s)) (+ (s_off %s) %d))", comp, term, term, k), depth+1))
+		}
+		return b.typeStr(t) + "{" + strings.Join(parts, ", ") + "}"
+	case *types.Interface:
+		if len(v.list) != 3 {
+			return b.fail("interface value has unexpected shape")
+		}
+		tag, _ := sxInt(v.list[1])
+		if tag == "0" {
+			return "(" + b.typeStr(t) + ")(nil)"
+		}
+		var dyn types.Type
+		for name, n := range b.g.d.tags {
+			if strconv.Itoa(n) == tag {
+				dyn = b.g.d.tagTypes[name]
+			}
+		}
+		if dyn == nil {
+			return b.fail("the model uses a dynamic type the module does not define (tag %s)", tag)
+		}
+		// the payload as the code reads it: the unboxing accessor of the dynamic type's sort applied to the box
+		// (the model may use another box constructor, on which that accessor is still a total function)
+		_, unbox := b.g.d.boxOfSort(b.g.d.sortOf(dyn))
+		return "(" + b.typeStr(t) + ")(" + b.val(dyn, fmt.Sprintf("(%s (i_box %s))", unbox, term), depth+1) + ")"
+	case *types.Map:
+		ref, _ := sxInt(v)
+		if ref == "0" {
+			return "(" + b.typeStr(t) + ")(nil)"
+		}
+		_, _, ln, _, _ := b.g.mapComps(u)
+		if b.declared(ln + "@0") {
+			lv, err := b.s.value(fmt.Sprintf("(select %s@0 %s)", ln, term))
+			if n, ok := sxInt(lv); err == nil && ok && n == "0" {
+				return b.typeStr(t) + "{}"
+			}
+			return b.fail("non-empty map in the model")
+		}
+		return b.typeStr(t) + "{}"
+	case *types.Signature, *types.Chan:
+		if ref, _ := sxInt(v); ref == "0" {
+			return "(" + b.typeStr(t) + ")(nil)"
+		}
+		return b.fail("function or channel value in the model")
+	}
+	return b.fail("values of type %s are not rebuilt", t)
+}
+
+// observable renders "what the real code returned" for one result expression; model side in obsModel.
+func obsGo(t types.Type, expr string) string {
+	switch u := types.Unalias(t).Underlying().(type) {
+	case *types.Basic:
+		switch {
+		case u.Kind() == types.Float64:
+			return fmt.Sprintf(`fmt.Sprintf("f:%%s", zzF(float64(%s)))`, expr)
+		case u.Info()&types.IsString != 0:
+			return fmt.Sprintf(`fmt.Sprintf("s:%%x", string(%s))`, expr)
+		case u.Info()&types.IsBoolean != 0:
+			return fmt.Sprintf(`fmt.Sprintf("b:%%v", bool(%s))`, expr)
+		case u.Info()&types.IsInteger != 0:
+			return fmt.Sprintf(`fmt.Sprintf("i:%%d", %s)`, expr)
+		}
+	case *types.Interface:
+		return fmt.Sprintf(`zzDyn(%s)`, expr)
+	case *types.Pointer, *types.Map, *types.Signature, *types.Chan:
+		return fmt.Sprintf(`fmt.Sprintf("nil:%%v", %s == nil)`, expr)
+	case *types.Slice:
+		return fmt.Sprintf(`fmt.Sprintf("len:%%d", len(%s))`, expr)
+	}
+	return `"?"`
+}
+
+// the helper the generated test uses to render an interface value: nil-ness, dynamic type and - for a struct of
+// scalars or a scalar - the payload
+const zzDynSrc = `
+func zzScalar(v reflect.Value) (string, bool) {
+	switch v.Kind() {
+	case reflect.Bool:
+		return fmt.Sprintf("b:%v", v.Bool()), true
+	case reflect.Int, reflect.Int8, reflect.Int16, reflect.Int32, reflect.Int64:
+		return fmt.Sprintf("i:%d", v.Int()), true
+	case reflect.Uint, reflect.Uint8, reflect.Uint16, reflect.Uint32, reflect.Uint64, reflect.Uintptr:
+		return fmt.Sprintf("i:%d", v.Uint()), true
+	case reflect.Float64:
+		return "f:" + zzF(v.Float()), true
+	case reflect.String:
+		return fmt.Sprintf("s:%x", v.String()), true
+	}
+	return "", false
+}
+
+func zzDyn(x interface{}) string {
+	if x == nil {
+		return "nil:true"
+	}
+	v := reflect.ValueOf(x)
+	out := fmt.Sprintf("dyn:%T", x)
+	if s, ok := zzScalar(v); ok {
+		return out + "{" + s + "}"
+	}
+	if v.Kind() == reflect.Struct {
+		out += "{"
+		for i := 0; i < v.NumField(); i++ {
+			if s, ok := zzScalar(v.Field(i)); ok {
+				out += s + ","
+			} else {
+				out += "_,"
+			}
+		}
+		return out + "}"
+	}
+	if v.Kind() == reflect.Ptr {
+		return out + fmt.Sprintf("{nil:%v}", v.IsNil())
+	}
+	return out
+}
+`
+
+func (b *rbuilder) obsModel(t Term) string {
+	switch u := types.Unalias(t.T).Underlying().(type) {
+	case *types.Basic:
+		v, err := b.s.value(t.S)
+		if err != nil {
+			return "!"
+		}
+		switch {
+		case u.Kind() == types.Float64:
+			if bits, ok := sxF64(v); ok {
+				f := math.Float64frombits(bits)
+				if f != f {
+					return "f:NaN"
+				}
+				return fmt.Sprintf("f:%016x", bits)
+			}
+		case u.Info()&types.IsString != 0:
+			if bs, ok := smtStringBytes(v.atom); ok && v.str {
+				return fmt.Sprintf("s:%x", string(bs))
+			}
+		case u.Info()&types.IsBoolean != 0:
+			return "b:" + v.atom
+		case u.Info()&types.IsInteger != 0:
+			if n, ok := sxInt(v); ok {
+				return "i:" + n
+			}
+		}
+		return "!"
+	case *types.Pointer, *types.Map, *types.Signature, *types.Chan:
+		v, err := b.s.value(fmt.Sprintf("(= %s 0)", t.S))
+		if err != nil {
+			return "!"
+		}
+		return "nil:" + v.atom
+	case *types.Interface:
+		v, err := b.s.value(fmt.Sprintf("(i_tag %s)", t.S))
+		if err != nil {
+			return "!"
+		}
+		tag, _ := sxInt(v)
+		if tag == "0" {
+			return "nil:true"
+		}
+		var dyn types.Type
+		for name, n := range b.g.d.tags {
+			if strconv.Itoa(n) == tag {
+				dyn = b.g.d.tagTypes[name]
+			}
+		}
+		if dyn == nil {
+			return "!"
+		}
+		out := "dyn:" + types.TypeString(dyn, func(p *types.Package) string { return p.Name() })
+		_, unbox := b.g.d.boxOfSort(b.g.d.sortOf(dyn))
+		payload := fmt.Sprintf("(%s (i_box %s))", unbox, t.S)
+		scalar := func(ft types.Type, term string) (string, bool) {
+			if _, isB := types.Unalias(ft).Underlying().(*types.Basic); !isB {
+				return "", false
+			}
+			o := b.obsModel(Term{term, "", ft})
+			return o, o != "!" && o != "?"
+		}
+		if sc, ok := scalar(dyn, payload); ok {
+			return out + "{" + sc + "}"
+		}
+		switch du := types.Unalias(dyn).Underlying().(type) {
+		case *types.Struct:
+			out += "{"
+			for k := 0; k < du.NumFields(); k++ {
+				if sc, ok := scalar(du.Field(k).Type(), fmt.Sprintf("(%s %s)", fieldAcc(dyn, k), payload)); ok {
+					out += sc + ","
+				} else {
+					out += "_,"
+				}
+			}
+			return out + "}"
+		case *types.Pointer:
+			pv, err := b.s.value(fmt.Sprintf("(= %s 0)", payload))
+			if err != nil {
+				return "!"
+			}
+			return out + "{nil:" + pv.atom + "}"
+		}
+		return out
+	case *types.Slice:
+		v, err := b.s.value(fmt.Sprintf("(s_len %s)", t.S))
+		if n, ok := sxInt(v); err == nil && ok {
+			return "len:" + n
+		}
+	}
+	return "?"
+}
+
+// replayOnRealCode tries to confirm a counterexample on the real code; everything it does is appended to the replay file.
+func replayOnRealCode(w *World, fo *funcOutcome, key, agg string, a *aggStatus, path string) (confirmed bool) {
+	logf, _ := os.OpenFile(path, os.O_APPEND|os.O_WRONLY, 0o644)
+	if logf == nil {
+		return false
+	}
+	defer logf.Close()
+	say := func(f string, x ...interface{}) { fmt.Fprintf(logf, f+"\n", x...) }
+	say("\n---- replay on the real code ----")
+	defer func() {
+		if r := recover(); r != nil {
+			say("replay abandoned: %v", r)
+			confirmed = false
+		}
+	}()
+	if fo.VC == nil || fo.VC.rp == nil {
+		say("no replay: the obligation is not generated from a Go function body")
+		return false
+	}
+	rp := fo.VC.rp
+	fn := rp.fn
+	if fn.Parent() != nil || fn.Pkg == nil || len(fn.FreeVars) > 0 {
+		say("no replay: %s is a closure (its captured variables cannot be supplied from a test)", key)
+		return false
+	}
+	var o *Obl
+	for i, f := range a.Failed {
+		if a.FailStatus[i] == "sat" {
+			o = f
+			break
+		}
+	}
+	if o == nil {
+		say("no replay: the solver gave no model (answers: %v)", a.FailStatus)
+		return false
+	}
+	expectPanic := o.Kind == "safety"
+	if o.Kind != "safety" && o.Kind != "post" {
+		say("no replay: obligations of kind %q (%s) are not observable by calling the function", o.Kind, o.Name)
+		return false
+	}
+	script := oblScript(fo.VC, o)
+	if i := strings.LastIndex(script, "(pop 1)"); i >= 0 {
+		script = script[:i]
+	}
+	script = strings.Replace(script, ";;FPDEFS\n", fpPrecise, 1)
+	// interface-typed parameters: ask for a model that uses nil or a dynamic type the module defines
+	var extra []string
+	for _, p := range rp.params {
+		if _, isI := types.Unalias(p.T).Underlying().(*types.Interface); isI {
+			alts := []string{fmt.Sprintf("(= %s %s)", p.S, nilIface)}
+			for name, ty := range rp.g.d.tagTypes {
+				if types.AssignableTo(ty, p.T) {
+					alts = append(alts, fmt.Sprintf("(= (i_tag %s) %s)", p.S, name))
+				}
+			}
+			sort.Strings(alts)
+			extra = append(extra, "(assert (or "+strings.Join(alts, " ")+"))")
+		}
+	}
+	if i := strings.LastIndex(script, "(check-sat)"); i >= 0 && len(extra) > 0 {
+		script = script[:i] + strings.Join(extra, "\n") + "\n" + script[i:]
+	}
+	var s *smtSession
+	var b *rbuilder
+	var args []string
+	for attempt := 0; ; attempt++ {
+		var status string
+		var err error
+		s, status, err = startSession(script, 20000)
+		if err != nil || status != "sat" {
+			if os.Getenv("GVC_KEEP") != "" {
+				os.WriteFile("/var/tmp/replay_session.smt2", []byte(script), 0o644)
+			}
+			say("no replay: could not re-establish the model (status %q, %v)", status, err)
+			if s != nil {
+				s.close()
+			}
+			return false
+		}
+		b = &rbuilder{s: s, g: rp.g, entry: rp.entry, script: script, pkg: fn.Pkg.Pkg, ptrs: map[string]string{}, imports: map[string]string{}, budget: 400}
+		args = nil
+		for _, p := range rp.params {
+			args = append(args, b.val(p.T, p.S, 0))
+		}
+		if b.why == "" {
+			break
+		}
+		if len(b.shorter) > 0 && attempt < 4 {
+			// the model is needlessly large: constrain it and ask again
+			s.close()
+			if i := strings.LastIndex(script, "(check-sat)"); i >= 0 {
+				script = script[:i] + strings.Join(b.shorter, "\n") + "\n" + script[i:]
+			}
+			continue
+		}
+		say("no replay: the model's inputs cannot be rebuilt as Go values: %s", b.why)
+		s.close()
+		return false
+	}
+	defer s.close()
+	// what the model says the code does
+	var wantObs []string
+	if !expectPanic {
+		var active *Exit
+		for k := range rp.exits {
+			v, err := s.value(rp.exits[k].en)
+			if err == nil && v.atom == "true" {
+				active = &rp.exits[k]
+				break
+			}
+		}
+		if active == nil {
+			say("no replay: the model's run does not end in a normal return")
+			return false
+		}
+		for _, r := range active.results {
+			wantObs = append(wantObs, b.obsModel(r))
+		}
+	}
+	// the call
+	sig := fn.Signature
+	call := ""
+	rest := args
+	if sig.Recv() != nil {
+		call = "(" + args[0] + ")." + fn.Name()
+		rest = args[1:]
+	} else {
+		call = fn.Name()
+	}
+	call += "(" + strings.Join(rest, ", ") + ")"
+	var lhs, obs []string
+	for k := 0; k < sig.Results().Len(); k++ {
+		lhs = append(lhs, fmt.Sprintf("r%d", k))
+		obs = append(obs, obsGo(sig.Results().At(k).Type(), fmt.Sprintf("r%d", k)))
+	}
+	var src strings.Builder
+	fmt.Fprintf(&src, "package %s\n\nimport (\n\t\"fmt\"\n\t\"reflect\"\n\t\"testing\"\n", fn.Pkg.Pkg.Name())
+	var imps []string
+	for p := range b.imports {
+		imps = append(imps, p)
+	}
+	sort.Strings(imps)
+	for _, p := range imps {
+		if p == "math" {
+			continue
+		}
+		fmt.Fprintf(&src, "\t%s %q\n", b.imports[p], p)
+	}
+	fmt.Fprintf(&src, "\t\"math\"\n)\n\nvar _ = math.NaN\n\nfunc zzF(f float64) string {\n\tif f != f {\n\t\treturn \"NaN\"\n\t}\n\treturn fmt.Sprintf(\"%%016x\", math.Float64bits(f))\n}\n\n")
+	src.WriteString(zzDynSrc)
+	src.WriteString("\nvar _ = reflect.ValueOf\n\n")
+	fmt.Fprintf(&src, "// counterexample of %s / %s found by the solver, replayed on the real code\nfunc TestZZGvcReplay(t *testing.T) {\n\tdefer func() {\n\t\tif r := recover(); r != nil {\n\t\t\tfmt.Printf(\"GVCREPLAY panic %%v\\n\", r)\n\t\t}\n\t}()\n", key, o.Name)
+	for _, st := range b.stmts {
+		fmt.Fprintf(&src, "\t%s\n", st)
+	}
+	if len(lhs) > 0 {
+		fmt.Fprintf(&src, "\t%s := %s\n", strings.Join(lhs, ", "), call)
+		fmt.Fprintf(&src, "\tfmt.Println(\"GVCREPLAY returned\", %s)\n", strings.Join(obs, ", "))
+	} else {
+		fmt.Fprintf(&src, "\t%s\n\tfmt.Println(\"GVCREPLAY returned\")\n", call)
+	}
+	fmt.Fprintf(&src, "}\n")
+	// run it through an overlay
+	dir, err := os.MkdirTemp(w.Scratch, "replay")
+	if err != nil {
+		say("no replay: %v", err)
+		return false
+	}
+	rel := relPkg(fn.Pkg.Pkg.Path())
+	testFile := filepath.Join(dir, "zz_gvc_replay_test.go")
+	os.WriteFile(testFile, []byte(src.String()), 0o644)
+	repl := map[string]string{filepath.Join(w.RepoDir, rel, "zz_gvc_replay_test.go"): testFile}
+	k := 0
+	for target, content := range w.Overlay {
+		k++
+		f := filepath.Join(dir, fmt.Sprintf("overlay%d.go", k))
+		os.WriteFile(f, content, 0o644)
+		repl[target] = f
+	}
+	ov, _ := json.Marshal(map[string]interface{}{"Replace": repl})
+	ovFile := filepath.Join(dir, "overlay.json")
+	os.WriteFile(ovFile, ov, 0o644)
+	cmd := exec.Command("go", "test", "-overlay", ovFile, "-vet=off", "-v", "-count=1", "-timeout", "60s", "-run", "^TestZZGvcReplay$", "./"+rel)
+	cmd.Dir = w.RepoDir
+	cmd.Env = goEnv()
+	done := make(chan struct{})
+	var out []byte
+	go func() { out, _ = cmd.CombinedOutput(); close(done) }()
+	select {
+	case <-done:
+	case <-time.After(150 * time.Second):
+		cmd.Process.Kill()
+		<-done
+	}
+	say("generated test (in-package, injected with go test -overlay; nothing is written to the repository):\n%s", src.String())
+	say("command: (cd %s && go test -overlay <overlay.json> -vet=off -count=1 -timeout 60s -run '^TestZZGvcReplay$' ./%s)", w.RepoDir, rel)
+	var got string
+	for _, ln := range strings.Split(string(out), "\n") {
+		if strings.HasPrefix(ln, "GVCREPLAY ") {
+			got = strings.TrimSpace(strings.TrimPrefix(ln, "GVCREPLAY "))
+		}
+	}
+	say("output of the real code: %s", got)
+	if got == "" {
+		say("no confirmation: the test did not run to its end:\n%s", tail(string(out), 1500))
+		return false
+	}
+	if expectPanic {
+		if strings.HasPrefix(got, "panic ") {
+			say("CONFIRMED: the real code panics on the solver's inputs (%s)", got)
+			return true
+		}
+		say("not confirmed: the real code did not panic on these inputs")
+		return false
+	}
+	want := strings.TrimSpace("returned " + strings.Join(wantObs, " "))
+	say("behaviour of the code according to the model: %s", want)
+	for _, x := range wantObs {
+		if x == "!" || x == "?" {
+			say("not confirmed: a result of the model cannot be compared")
+			return false
+		}
+	}
+	if got == want {
+		say("CONFIRMED: the real code returns exactly what the model says, and the solver has shown that the contract clause\n  %s\nis false for these inputs and results", o.Descr)
+		return true
+	}
+	say("not confirmed: the real code behaves differently from the model (the model relies on an abstraction of a callee or of arithmetic)")
 	return false
+}
+
+func tail(s string, n int) string {
+	if len(s) > n {
+		return s[len(s)-n:]
+	}
+	return s
+}
+
+func sxString(v sx) string {
+	if v.isAtom() {
+		if v.str {
+			return strconv.Quote(v.atom)
+		}
+		return v.atom
+	}
+	var ps []string
+	for _, x := range v.list {
+		ps = append(ps, sxString(x))
+	}
+	return "(" + strings.Join(ps, " ") + ")"
 }
